@@ -34,3 +34,11 @@ CLAIMS["C20"] = dict(
     technique="CFG path cover / exclusivity of the callback calls, def-chain check of the callback argument, allocation-kind (alias) analysis, value flow of the penalty",
     text="Decides that, with a callback set, every normal path of the evaluation routine passes exactly one callback call placed after the filter update; that its argument is build_x(best_eval(penalty)[0]) with the objective value of the same selection - the chain the result builder uses; that build_x returns a fresh array and the array is not kept by the solver; that every evaluation passes the penalty in force; and that the convention is chosen from the signature's parameter names.",
     note=TB)
+CLAIMS["C12"] = dict(
+    technique="call-site effect analysis (unconditional execution, loop coverage), CFG ordering (dominance) of old-set/new-set operations, index-coherence check, relational dataflow (step/evaluation/best-index) at the update sites, value flow of recorded values",
+    text="Decides the bookkeeping that interpolation rests on: every model group is updated/shifted/rebuilt unconditionally over its full range in each maintenance function; residuals and the copy of the old direction precede the point store and updates follow it; models shift before the base point moves; stores use one index; at each update site in minimize the values come from the last evaluation of x_best + step with the same step and an unchanged best index; recorded values come from the evaluation routine's clamped returns. The size of the interpolation error and poisedness are numerical and not decided.",
+    note=TB)
+CLAIMS["C19"] = dict(
+    technique="guard-table extraction and comparison with a frozen requirement table; message-grammar agreement; must-defined-keys dataflow with branch refinement; affine orientation check of derived partners; constant folding of defaults; docstring cross-check",
+    text="The validation code is a finite object: the checker extracts every `if relation: raise ValueError` guard (32 today) and proves that each documented restriction (26 members, 5 ordered pairs) is enforced with exactly its relation and bound on every path on which the member is supplied and before it is used to derive a partner; that each guard negates its own message; that every key is definitely stored at exit; that derived partners are min/max expressions oriented so that the pair relation holds (affine reasoning on the member's domain); that defaults satisfy their guards and match the documentation; and that unknown names only warn. Whether each documented interval is the right one is not decided.",
+    note=TB + " The requirement table REQUIRED/PAIRS in sa/rules/c19.py is taken from the property statement, the messages and the docstring.")
